@@ -15,7 +15,7 @@ try:
                        env=dict(os.environ, CARGO_NET_OFFLINE="true"))
     print("suite:", t.stdout.strip() or "DOES NOT BUILD")
     for p in props:
-        pr = subprocess.run([os.path.join(ROOT, "check"), p], cwd=ROOT, capture_output=True, text=True, env=dict(os.environ, VERIF_NO_EVIDENCE="1"))
+        pr = subprocess.run([os.path.join(ROOT, "check"), p] + os.environ.get("VERIF_BENIGN_ARGS", "").split(), cwd=ROOT, capture_output=True, text=True, env=dict(os.environ, VERIF_NO_EVIDENCE="1"))
         viol = [l for l in pr.stdout.split("\n") if l.startswith("VIOLATION")]
         notes = [l for l in pr.stdout.split("\n") if l.startswith("note:") or l.startswith("  broken:")]
         print(p, "exit", pr.returncode, viol[:1], notes[:3])
